@@ -594,7 +594,9 @@ pub fn run(family: Family, mut ch: Choices) -> RunOut {
 
     // configuration
     let min_chunk = *ch.pick(&[0u32, 1, 4, 1024, 32 * 1024]);
-    let max_size = if family == Family::C02 { *ch.pick(&[0u32, 0, 64, 300]) } else { 0 };
+    // (inbound maximum: none, ordinary values, and values of a few bytes - smaller than a fixed header, or
+    // exactly the Remaining Length of the small packets of the stream: a frame AT the limit is accepted)
+    let max_size = if family == Family::C02 { *ch.pick(&[0u32, 0, 64, 300, 64, 300, 1, 2, 3, 4, 5, 7, 12, 20]) } else { 0 };
     plan.cfg.min_chunk = min_chunk;
     plan.cfg.max_size = max_size;
     cx.note(format!("codec {vn} min_chunk={min_chunk} max_size={max_size}"));
